@@ -21,7 +21,7 @@ theorem NClaim.actor {s s' : State} {e : Event} (hA : InvA s) (hN : InvN s)
   all_goals (try subst ha)
   all_goals (try (rw [‹s.pc _ = _›] at hc))
   all_goals (try (simp only [setPc_pc, upd_same, afterDeadline_pc, afterNotify_pc, childReturn_pc,
-    childWakeNext_pc, freeLoopStart_pc, enterChild_pc, leave_pc, addUser_pc, markCalled_pc,
+    childWakeNext_pc, childScanStart_pc, freeLoopStart_pc, enterChild_pc, leave_pc, addUser_pc, markCalled_pc,
     markFreeing_pc, setAfter_pc, pushObs_pc, publish_pc, delUser_pc]))
   all_goals (try (simp [NClaim]; done))
   all_goals (try (refine (NClaim.same (s := s) ?_ _).mpr ?_; (· same_tac)))
@@ -37,6 +37,7 @@ theorem NClaim.actor {s s' : State} {e : Event} (hA : InvA s) (hN : InvN s)
   all_goals (try (exact NClaim.childReturnPc hc (notified_of_ntime ‹_›)))
   all_goals (try (exact NClaim.childReturnPc hc (hc.2.2.2.2.2.1 rfl)))
   all_goals (try (exact NClaim.childWakeNextPc hc (hc.2.2.2.2.2.1 rfl)))
+  all_goals (try (exact NClaim.childLoopStartPc _ hc (hc.2.2.2.2.2.1 rfl)))
   all_goals (try (exact NClaim.chdStored hc (hc.2.2.2.2.2.1 rfl) rfl rfl))
   all_goals (try (exact NClaim.afterDeadlinePc_zero hc.1 hc.2.1 (Or.inl (by assumption))))
   all_goals (try (
